@@ -64,9 +64,11 @@ def trimPrefix (s p : String) : String :=
 def trimSuffix (s p : String) : String :=
   if hasSuffix s p then String.ofList (s.toList.take (s.length - p.length)) else s
 
-/-- Go's `unicode.IsSpace` on the alphabet (ASCII white space, NEL, NBSP). -/
+/-- Go's `unicode.IsSpace`: ASCII white space, NEL, NBSP and the Unicode space separators (Z category). -/
 def isGoSpace (c : Char) : Bool :=
-  c == ' ' || c == '\t' || c == '\n' || c == '\r' || c.toNat == 0x0B || c.toNat == 0x0C || c.toNat == 0x85 || c.toNat == 0xA0
+  c == ' ' || c == '\t' || c == '\n' || c == '\r' || c.toNat == 0x0B || c.toNat == 0x0C || c.toNat == 0x85 || c.toNat == 0xA0 ||
+  c.toNat == 0x1680 || (0x2000 ≤ c.toNat && c.toNat ≤ 0x200A) || c.toNat == 0x2028 || c.toNat == 0x2029 || c.toNat == 0x202F ||
+  c.toNat == 0x205F || c.toNat == 0x3000
 
 def dropWhileL (p : Char → Bool) : List Char → List Char
   | [] => []
